@@ -92,14 +92,21 @@ type c15Plan struct {
 	need   []int           // messages of its own type sent to the state
 	slow   []bool          // the state's initiation lasts longer than the transition check interval
 	phases [][]c15Delivery // deliveries while state p is current, in order
-	// ending: "final" | "init-error" | "next-error" | "cancel-during-init" | "cancel-before-allow"
+	// ending: "final" | "init-error" | "next-error" | "cancel-during-init" |
+	// "cancel-before-allow" | "cancel-under-traffic" (the run is cancelled
+	// while the machine is busy inside Receive and `queued` more messages are
+	// waiting, so cancellation competes with everything else that is ready)
 	ending   string
 	endState int
+	queued   int
 }
 
 func (p *c15Plan) String() string {
 	var b strings.Builder
 	fmt.Fprintf(&b, "states=%d need=%v slow=%v end=%s@%d", p.states, p.need, c15Bits(p.slow), p.ending, p.endState)
+	if p.ending == "cancel-under-traffic" {
+		fmt.Fprintf(&b, "(+%d queued)", p.queued)
+	}
 	for ph, ds := range p.phases {
 		if len(ds) == 0 {
 			continue
@@ -183,7 +190,9 @@ func c15GenPlan(t *rapid.T, label string) *c15Plan {
 		}
 		p.phases[ph] = append(before, after...)
 	}
-	p.ending = rapid.SampledFrom([]string{"final", "final", "final", "final", "init-error", "next-error", "cancel-during-init", "cancel-before-allow"}).Draw(t, label+"ending")
+	p.ending = rapid.SampledFrom([]string{"final", "final", "final", "final", "init-error", "next-error", "cancel-during-init", "cancel-before-allow",
+		"cancel-under-traffic", "cancel-under-traffic", "cancel-under-traffic"}).Draw(t, label+"ending")
+	p.queued = rapid.IntRange(0, 2).Draw(t, label+"queuedBehindBusyReceive")
 	p.endState = p.states - 1
 	if p.ending != "final" {
 		p.endState = rapid.IntRange(0, p.states-1).Draw(t, label+"endState")
@@ -215,6 +224,11 @@ type c15Chain struct {
 	allow       []atomic.Bool
 	acks        chan struct{}
 	states      []*c15State
+
+	// a message with this id parks the machine inside Receive until released
+	blockID     int
+	recvEntered chan struct{}
+	recvRelease chan struct{}
 }
 
 type c15State struct {
@@ -282,8 +296,13 @@ func (s *c15State) CanTransition() bool {
 
 func (s *c15State) Receive(msg net.Message) error {
 	c := s.c
-	c.event(c15Event{kind: "recv", state: s.idx, id: msg.Payload().(*c15Payload).id})
+	id := msg.Payload().(*c15Payload).id
+	c.event(c15Event{kind: "recv", state: s.idx, id: id})
 	c.base.ReceiveToHistory(msg)
+	if id == c.blockID {
+		close(c.recvEntered)
+		<-c.recvRelease
+	}
 	c.acks <- struct{}{}
 	return nil
 }
@@ -314,15 +333,20 @@ type c15Outcome struct {
 	beforeInit   []bool
 	inconclusive string
 	violation    string
+	optionalTail int // the last deliveries raced with the cancellation
 }
 
 func c15Run(plan *c15Plan) (*c15Chain, *c15Outcome) {
 	n := plan.states
 	c := &c15Chain{plan: plan, base: NewBaseAsyncState(), visibleAtInit: map[int][]int{}, visibleAtTrue: map[int][]int{},
 		initStarted: make([]chan struct{}, n), initEnded: make([]chan struct{}, n), gate: make([]chan struct{}, n),
-		allow: make([]atomic.Bool, n), acks: make(chan struct{}, 1024)}
+		allow: make([]atomic.Bool, n), acks: make(chan struct{}, 1024), blockID: -1,
+		recvEntered: make(chan struct{}), recvRelease: make(chan struct{})}
 	for i := 0; i < n; i++ {
 		c.initStarted[i], c.initEnded[i], c.gate[i] = make(chan struct{}), make(chan struct{}), make(chan struct{})
+	}
+	if plan.ending == "cancel-under-traffic" {
+		c.blockID = 1000 + plan.endState
 	}
 	out := &c15Outcome{}
 	ctx, cancel := context.WithCancel(context.Background())
@@ -340,9 +364,13 @@ func c15Run(plan *c15Plan) (*c15Chain, *c15Outcome) {
 		done <- result{f, err}
 	}()
 	gateOpen := make([]bool, n)
+	released := false
 	defer func() {
 		// release whatever may still be parked
 		cancel()
+		if !released {
+			close(c.recvRelease)
+		}
 		for i := 0; i < n; i++ {
 			if !gateOpen[i] {
 				close(c.gate[i])
@@ -443,6 +471,40 @@ func c15Run(plan *c15Plan) (*c15Chain, *c15Outcome) {
 			awaitEnd(p)
 			break
 		}
+		if plan.ending == "cancel-under-traffic" && plan.endState == p {
+			// a message parks the machine's loop inside Receive; more
+			// messages queue up behind it; the run is cancelled; the
+			// transition routine gets time to notice (a schedule, not a
+			// verdict); then the loop is let go and finds cancellation
+			// competing with whatever else is ready
+			seq++
+			blocker := c15Delivery{forState: n + 5, id: c.blockID, afterInit: true}
+			if ch.deliver(&c15Msg{typ: c15Type(blocker.forState), id: blocker.id, seq: seq}) == 0 {
+				out.violation = fmt.Sprintf("message delivered while state %d is current found no registered handler (lost)", p)
+				break
+			}
+			out.delivered = append(out.delivered, blocker)
+			out.phaseOf = append(out.phaseOf, p)
+			out.beforeInit = append(out.beforeInit, false)
+			if !waitFor("the machine to enter Receive", c.recvEntered) {
+				break
+			}
+			for k := 0; k < plan.queued; k++ {
+				seq++
+				d := c15Delivery{forState: n + 6, id: 2000 + k, afterInit: true}
+				ch.deliver(&c15Msg{typ: c15Type(d.forState), id: d.id, seq: seq})
+				out.delivered = append(out.delivered, d)
+				out.phaseOf = append(out.phaseOf, p)
+				out.beforeInit = append(out.beforeInit, false)
+				out.optionalTail++
+			}
+			cancel()
+			time.Sleep(transitionCheckInterval / 4)
+			close(c.recvRelease)
+			released = true
+			awaitEnd(p)
+			break
+		}
 		c.allow[p].Store(true)
 		if (plan.ending == "next-error" && plan.endState == p) || p == n-1 {
 			awaitEnd(p)
@@ -525,8 +587,9 @@ func c15Verify(c *c15Chain, out *c15Outcome) string {
 	for _, d := range out.delivered {
 		wantIDs = append(wantIDs, d.id)
 	}
-	if fmt.Sprint(recvIDs) != fmt.Sprint(wantIDs) {
-		return fmt.Sprintf("messages received %v, delivered %v (each exactly once, in delivery order)", recvIDs, wantIDs)
+	must := len(wantIDs) - out.optionalTail
+	if len(recvIDs) < must || len(recvIDs) > len(wantIDs) || fmt.Sprint(recvIDs) != fmt.Sprint(wantIDs[:len(recvIDs)]) {
+		return fmt.Sprintf("messages received %v, delivered %v (each exactly once, in delivery order; the last %d raced with the cancellation and may be missing)", recvIDs, wantIDs, out.optionalTail)
 	}
 	for i := range recvIDs {
 		if recvStates[i] != out.phaseOf[i] {
